@@ -43,7 +43,7 @@ class C09(Check):
                    'well-posed problems use quasi-uniform breakpoints (interval widths within a factor 3) and weights within 3 '
                    'decades, so cond(A^T W A) <~ 1e8 and the 1e-7*max|y| tolerance on fitted values has margin; wildly uneven '
                    'knot vectors legitimately trigger the fit\'s min_influence guard (status -1) and are not asserted to give 0']
-    REQUIRED_COUNTERS = ('wellposed_zero_weight_points_outside_the_knots', 'solve_rhs_be_f8', 'solve_rhs_f4', 'canary_sequences', 'status0_optimality_checked', 'wellposed_status0', 'maskpoints_entered', 'cholesky_fallback_entered', 'status_minus1', 'status_minus2',
+    REQUIRED_COUNTERS = ('wellposed_abscissae_with_large_offset', 'wellposed_zero_weight_points_outside_the_knots', 'solve_rhs_be_f8', 'solve_rhs_f4', 'canary_sequences', 'status0_optimality_checked', 'wellposed_status0', 'maskpoints_entered', 'cholesky_fallback_entered', 'status_minus1', 'status_minus2',
                          'spd_factorisations', 'nonpd_signalled', 'nonfinite_signalled', 'zero_weight_invariance_checked')
     CASE_CPU_S = 60
 
@@ -115,6 +115,12 @@ class C09(Check):
                 n = x.size
             scale = 10 ** rng.uniform(-3, 3)
             y = scale * (np.sin(x * rng.uniform(0.3, 2)) + g.normal(0, 0.1, n))
+            if rng.random() < 0.2:
+                # abscissae with a large additive offset (Julian dates, Unix seconds, pixel numbers of a mosaic): the breakpoint
+                # spacing is then tiny relative to the breakpoint values themselves
+                off = rng.choice([2451545.0, 2460000.5, 1.7e9, 1.0e5, -3.0e4, 2.0 ** 20])
+                x = x + off
+                edges = edges + off
             return {'kind': cls, 'x': x.tolist(), 'y': y.tolist(), 'w': w.tolist(), 'nord': k, 'bkpt': edges.tolist(),
                     'seed': rng.getrandbits(32)}
         if cls in ('cholesky_spd', 'cholesky_bad'):
@@ -250,6 +256,7 @@ class C09(Check):
         with warnings.catch_warnings():
             warnings.simplefilter('ignore')
             xg = x[w > 0]                     # the spline set is built from the good points (all points, unless some lie outside)
+            out.count('wellposed_abscissae_with_large_offset', abs(float(xg.min())) > 1e4)
             inside = (x >= xg.min()) & (x <= xg.max())
             out.count('wellposed_zero_weight_points_outside_the_knots', int((~inside).sum()))
             s = B.bspline(xg, nord=k, bkpt=np.array(case['bkpt']))
@@ -282,7 +289,7 @@ class C09(Check):
         g = np.random.default_rng(case['seed'])
         # polynomial of degree < order is reproduced
         pc = g.normal(size=k)
-        p = np.polyval(pc, (x - 5) / 5)
+        p = np.polyval(pc, (x - xg.min() - 5) / 5)
         s2 = B.bspline(xg, nord=k, bkpt=np.array(case['bkpt']))
         st2, pf = s2.fit(x, p, w)
         ps = max(float(np.abs(p).max()), 1e-300)
